@@ -75,6 +75,8 @@ extern uint32_t yk_log_line;
 extern uint32_t yk_log_allow_line;   /* harness may declare ONE LOG(ERROR) site (file line) as proven-unreachable elsewhere */
 static inline void yk_fault(const char* what) { (void)what; YK_ASSERT(0, "fault: throw/terminate/trap reached"); YK_ASSUME(0); }
 static inline void yk_unreachable(void) { YK_ASSERT(0, "fault: llvm unreachable reached"); YK_ASSUME(0); }
+/* std::string members that allocate/grow: only reachable from LOG message formatting in the units verified so far */
+static inline void yk_string_unmodelled(void) { YK_ASSERT(0, "bound: std::string growth path reached (not modelled in this unit)"); YK_ASSUME(0); }
 /* glog severities: INFO 0, WARNING 1, ERROR 2, FATAL 3.  LOG(ERROR) sites are "programming error / unreachable
  * path" markers in yakushima: reaching one is an assertion failure in every harness. */
 static inline void yk_log(const char* file, uint32_t line, uint32_t sev)
@@ -84,6 +86,7 @@ static inline void yk_log(const char* file, uint32_t line, uint32_t sev)
         if (line == yk_log_allow_line) { YK_ASSUME(0); }
         yk_logged_errors++;
         YK_ASSERT(0, "fault: LOG(ERROR) site reached");
+        YK_ASSUME(0);   /* the run is already a reported violation; message formatting is not explored */
     }
 }
 extern char yk_ostream[512];
@@ -96,6 +99,7 @@ extern uint32_t yk_errno;
 #define YK_NALLOC 24
 #endif
 extern int64_t yk_live;            /* live library allocations */
+static inline int64_t yk_live_allocs(void);
 extern uint64_t yk_news, yk_deletes;
 extern void* yk_ap[YK_NALLOC];
 extern uint64_t yk_an[YK_NALLOC], yk_aa[YK_NALLOC];
@@ -116,6 +120,7 @@ static inline void* yk_new(uint64_t n, uint64_t al)
     yk_track(p, n, al);
     return p;
 }
+static inline int64_t yk_live_allocs(void) { return yk_live; }
 static inline int yk_is_live(const void* p)
 {
     for (unsigned i = 0; i < YK_NALLOC; i++) if (i < yk_news && yk_ap[i] == p) return yk_al[i];
@@ -210,11 +215,42 @@ static inline void yk_watch(const void* p) { yk_watch_ptr = p; yk_watch_stores =
 static inline uint32_t yk_watch_store_count(void) { return yk_watch_stores; }
 static inline uint32_t yk_watch_load_count(void) { return yk_watch_loads; }
 static inline void yk_watch_note(int kind, const void* p) { if (p != 0 && p == yk_watch_ptr) { if (kind == 1) yk_watch_stores++; else if (kind == 0) yk_watch_loads++; } }
-static inline void yakushima_verif_event(int ev, const void* p, uint64_t tag) { (void)ev; (void)p; (void)tag; }
+/* ---- events (RETIRE / RECLAIM / ENTER / LEAVE) recorded for the harness oracles */
+#ifndef YK_NEV
+#define YK_NEV 4
+#endif
+extern uint32_t yk_nev;
+extern uint32_t yk_ev_kind[YK_NEV];
+extern const void* yk_ev_ptr[YK_NEV];
+extern uint64_t yk_ev_tag[YK_NEV];
+static inline void yakushima_verif_event(int ev, const void* p, uint64_t tag)
+{
+    if (yk_nev < YK_NEV) { yk_ev_kind[yk_nev] = (uint32_t)ev; yk_ev_ptr[yk_nev] = p; yk_ev_tag[yk_nev] = tag; }
+    yk_nev++;
+}
+static inline void yk_queue_overflow(void) { YK_ASSERT(0, "bound: gc queue model capacity (YK_QCAP) exceeded"); YK_ASSUME(0); }
+static inline uint32_t yk_event_count(void) { return yk_nev; }
+static inline uint32_t yk_event_kind(uint32_t i) { return i < YK_NEV ? yk_ev_kind[i] : 99; }
+static inline const void* yk_event_ptr(uint32_t i) { return i < YK_NEV ? yk_ev_ptr[i] : 0; }
+static inline uint64_t yk_event_tag(uint32_t i) { return i < YK_NEV ? yk_ev_tag[i] : 0; }
+static inline void yk_event_reset(void) { yk_nev = 0; }
 #ifndef YK_SEQ
 /* plain mode: a single thread must never wait */
 static inline void yk_pause(void) { YK_ASSERT(0, "fault: single thread spins (pause reached)"); YK_ASSUME(0); }
 static inline void yk_sleep(void) { }
-static inline void yk_hook(int kind, const void* p) { yk_watch_note(kind, p); if (kind == 2) { YK_ASSERT(0, "fault: single thread spins (SPIN hook)"); YK_ASSUME(0); } }
+#ifndef YK_MAX_LAYERS
+#define YK_MAX_LAYERS 1
+#endif
+extern uint32_t yk_layers;
+static inline void yk_hook(int kind, const void* p)
+{
+    yk_watch_note(kind, p);
+    if (kind == 2) { YK_ASSERT(0, "fault: single thread waits (SPIN hook reached)"); YK_ASSUME(0); }
+    /* an optimistic retry needs a concurrent writer: with one thread every RETRY back edge is dead code, and the
+     * assertion says so (this also keeps symex from unrolling the retry loops) */
+    if (kind == 3) { YK_ASSERT(0, "fault: single thread retries (RETRY hook reached)"); YK_ASSUME(0); }
+    /* descent into the next trie layer: bounded by the number of layers the harness's shape has */
+    if (kind == 5) { yk_layers++; if (yk_layers >= YK_MAX_LAYERS) { YK_ASSERT(0, "bound: descent below the deepest layer of the shape"); YK_ASSUME(0); } }
+}
 #endif
 #endif
